@@ -49,10 +49,19 @@ pub fn c09<E: DGlue>(ctx: &mut Ctx) {
     let interesting = spec.variants.iter().any(|v| v.kind != vmodel::spec::Kind::Unit)
         && (spec.variants.iter().any(|v| v.disc.is_some()) || spec.has_generics() || !opts.passthrough.is_empty() || spec.variants.iter().any(|v| !v.disc_passthrough.is_empty()));
     // expected names on D (pass-through strum attributes only; E's own #[strum] must not leak)
-    let pt_style: Option<String> = opts.passthrough.iter().find_map(|p| {
-        p.strip_prefix("strum(serialize_all = \"").and_then(|r| r.strip_suffix("\")")).map(|s| s.to_string())
-    });
-    let d_name = |j: usize| -> String {
+    let pt_all = opts.passthrough.join(", ");
+    let grab = |key: &str| -> Option<String> {
+        let pat = format!("{} = \"", key);
+        pt_all.find(&pat).map(|i| {
+            let rest = &pt_all[i + pat.len()..];
+            rest[..rest.find('"').unwrap()].to_string()
+        })
+    };
+    let pt_style: Option<String> = grab("serialize_all");
+    let pt_prefix: String = grab("prefix").unwrap_or_default();
+    let pt_ci = pt_all.contains("ascii_case_insensitive");
+    // name accepted by from_str
+    let d_parse = |j: usize| -> String {
         let v = &spec.variants[j];
         for p in &v.disc_passthrough {
             if let Some(r) = p.strip_prefix("strum(serialize = \"").and_then(|r| r.strip_suffix("\")")) {
@@ -61,6 +70,8 @@ pub fn c09<E: DGlue>(ctx: &mut Ctx) {
         }
         model::case(&v.ident, pt_style.as_deref())
     };
+    // name printed by Display / listed by VariantNames
+    let d_name = |j: usize| -> String { format!("{}{}", pt_prefix, d_parse(j)) };
     for i in 0..n {
         for k in 0..draws {
             let dv: Vec<u64> = (0..6).map(|j| vmodel::derive_seed(ctx.seed, "disc", i as u64 * 1000 + k, j)).collect();
@@ -130,15 +141,25 @@ pub fn c09<E: DGlue>(ctx: &mut Ctx) {
                 ctx.fail("disc:derive-Display", json!({"derive": "Display", "variant": j}), format!("{:?}", d_name(j)), format!("{:?}", s));
             }
         }
-        if let Some(r) = E::d_from_str(&d_name(j)) {
+        if let Some(r) = E::d_from_str(&d_parse(j)) {
             ctx.eval();
             ctx.class("derive:EnumString");
             if r != Some(j) {
-                ctx.fail("disc:derive-EnumString", json!({"derive": "EnumString", "variant": j, "input": d_name(j)}), format!("Some({})", j), format!("{:?}", r));
+                ctx.fail("disc:derive-EnumString", json!({"derive": "EnumString", "variant": j, "input": d_parse(j), "passthrough": opts.passthrough}), format!("Some({})", j), format!("{:?}", r));
+            }
+            // a passed-through ascii_case_insensitive takes effect (and its absence too)
+            let flipped = crate::inputs::flip(&d_parse(j), 0b1011);
+            if flipped != d_parse(j) && (0..n).all(|x| x == j || !model::ascii_fold_eq(&d_parse(x), &flipped)) {
+                ctx.eval();
+                let want = if pt_ci { Some(j) } else { None };
+                let got = E::d_from_str(&flipped).unwrap();
+                if got != want {
+                    ctx.fail("disc:passthrough-case-insensitivity", json!({"derive": "EnumString", "input": flipped, "passthrough": opts.passthrough}), format!("{:?}", want), format!("{:?}", got));
+                }
             }
             // spellings that only exist on E (its own #[strum(serialize)]) must not leak to D
             for s in spec.variants[j].serialize() {
-                if (0..n).all(|x| d_name(x) != s) {
+                if (0..n).all(|x| d_parse(x) != s) {
                     ctx.eval();
                     if let Some(Some(x)) = E::d_from_str(s) {
                         ctx.fail("disc:strum-attribute-leaked", json!({"derive": "EnumString", "input": s}), "None".into(), format!("Some({})", x));
